@@ -1,0 +1,65 @@
+//go:build verif
+
+package fieldmask
+
+// Contracts for the field-mask library (property C14). Comment-only file, read by /verif/engine (govc).
+
+//@ pure func at(m *fieldMap, k fieldID) *FieldMask { return ite(0 <= k && k <= 63, m.head[k], m.tail[k]) }
+
+//@ func (self *fieldMap) Get(f fieldID) (ret *FieldMask)
+//@   ensures self == nil ==> ret == nil
+//@   ensures self != nil ==> ret == ite(at(self, f) != nil && at(self, f).typ != 0, at(self, f), nil)
+
+//@ func (self *fieldMap) SetIfNotExist(f fieldID, ft FieldMaskType, black bool) (s *FieldMask)
+//@   requires self != nil && self.tail != nil
+//@   ensures  s != nil && at(self, f) == s
+//@   ensures  old(at(self, f)) == nil ==> fresh(s) && s.typ == ft && !s.isAll && s.isBlack == black
+//@   ensures  old(at(self, f)) != nil ==> s == old(at(self, f))
+//@   ensures  old(at(self, f)) != nil && old(at(self, f).typ) == 0 ==> s.typ == ft && !s.isAll && s.isBlack == black
+//@   ensures  old(at(self, f)) != nil && old(at(self, f).typ) != 0 ==> s.typ == old(s.typ) && s.isAll == old(s.isAll) && s.isBlack == old(s.isBlack)
+//@   ensures  forall k fieldID :: k != f ==> at(self, k) == old(at(self, k))
+//@   modifies self.head, contents(self.tail), at(self, f).typ, at(self, f).isAll, at(self, f).isBlack
+
+//@ func (im intMap) Get(i int) (ret *FieldMask)
+//@   ensures ret == ite(im[i] != nil && im[i].typ != 0, im[i], nil)
+
+//@ func (im strMap) Get(i string) (ret *FieldMask)
+//@   ensures ret == ite(im[i] != nil && im[i].typ != 0, im[i], nil)
+
+// ---- queries (mask.go): total on every heap; answers per the abstract view ----
+
+//@ pure func hasKids(m *FieldMask) bool { return m.typ != 0 && (m.all != nil || m.fdMask != nil || m.intMask != nil || m.strMask != nil) }
+//@ pure func inMask(self *FieldMask, c *FieldMask) bool { return ite(self.isBlack, c == nil || hasKids(c), c != nil) }
+//@ pure func fdChild(self *FieldMask, id fieldID) *FieldMask { return ite(self.fdMask != nil && at(self.fdMask, id) != nil && at(self.fdMask, id).typ != 0, at(self.fdMask, id), nil) }
+//@ pure func intChild(self *FieldMask, id int) *FieldMask { return ite(self.intMask[id] != nil && self.intMask[id].typ != 0, self.intMask[id], nil) }
+//@ pure func strChild(self *FieldMask, id string) *FieldMask { return ite(self.strMask[id] != nil && self.strMask[id].typ != 0, self.strMask[id], nil) }
+
+//@ func (self *FieldMask) Exist() bool
+//@   ensures result == (self != nil && self.typ != 0)
+
+//@ func (self *FieldMask) hasChild() bool
+//@   requires self != nil
+//@   ensures result == hasKids(self)
+
+//@ func (self *FieldMask) ret(fm *FieldMask) (*FieldMask, bool)
+//@   requires self != nil
+//@   ensures result0 == fm && result1 == inMask(self, fm)
+
+//@ func (self *FieldMask) Field(id int16) (*FieldMask, bool)
+//@   ensures (self == nil || self.typ == 0) ==> result0 == nil && result1
+//@   ensures self != nil && self.typ != 0 && self.isAll ==> result0 == self.all && result1 == (!self.isBlack || hasKids(self))
+//@   ensures self != nil && self.typ != 0 && !self.isAll ==> result0 == fdChild(self, fieldID(id)) && result1 == inMask(self, fdChild(self, fieldID(id)))
+
+//@ func (self *FieldMask) Int(id int) (*FieldMask, bool)
+//@   ensures (self == nil || self.typ == 0) ==> result0 == nil && result1
+//@   ensures self != nil && self.typ != 0 && self.isAll ==> result0 == self.all && result1 == (!self.isBlack || hasKids(self))
+//@   ensures self != nil && self.typ != 0 && !self.isAll ==> result0 == intChild(self, id) && result1 == inMask(self, intChild(self, id))
+
+//@ func (self *FieldMask) Str(id string) (*FieldMask, bool)
+//@   ensures (self == nil || self.typ == 0) ==> result0 == nil && result1
+//@   ensures self != nil && self.typ != 0 && self.isAll ==> result0 == self.all && result1 == (!self.isBlack || hasKids(self))
+//@   ensures self != nil && self.typ != 0 && !self.isAll ==> result0 == strChild(self, id) && result1 == inMask(self, strChild(self, id))
+
+//@ func (self *FieldMask) All() bool
+//@   ensures self == nil ==> result
+//@   ensures self != nil ==> result == ite(self.typ == FtStruct || self.typ == FtList || self.typ == FtIntMap || self.typ == FtStrMap, self.isAll, true)
